@@ -7,6 +7,7 @@ import (
 	"time"
 
 	dht "github.com/anacrolix/dht/v2"
+	"github.com/anacrolix/dht/v2/krpc"
 )
 
 // Generators and per-property profiles for the server-boundary engine.
@@ -289,6 +290,17 @@ func (sc *srvScen) tableHistory(n int) {
 			id = [20]byte{}
 		}
 		addr := sc.freshSrc([]int{0, 0, 1, 2}[r.Intn(4)])
+		if !sc.o.noSecurity && r.Intn(2) == 0 {
+			// enforcement on: addresses from the exempt ranges and from ranges that merely look private (IPv6
+			// unique-local, CGNAT, ...), IDs valid for the address half of the time
+			addr = udp(sc.r.c17IP(), addr.Port)
+			if r.Intn(2) == 0 {
+				kid := krpc.ID(id)
+				dht.SecureNodeId(&kid, addr.IP)
+				id = kid
+			}
+			sc.r.hist("table-event/enforced/special-range-or-secured-id")
+		}
 		if len(pool) > 0 && r.Intn(4) == 0 {
 			k := pool[r.Intn(len(pool))]
 			switch r.Intn(4) {
